@@ -20,6 +20,39 @@ LexCmp(a, b) == LexCmpFrom(a, b, 1)
 LexLE(a, b) == LexCmp(a, b) <= 0
 LexLT(a, b) == LexCmp(a, b) < 0
 
+(* ---- column orders on PLAIN byte representations ---------------------------- *)
+(* A value of a typed column travels as its PLAIN bytes (little-endian for      *)
+(* numbers, raw bytes for byte arrays, big-endian two's complement for DECIMAL  *)
+(* stored in FIXED_LEN_BYTE_ARRAY).  Key(kind, b) maps it to an integer         *)
+(* sequence whose lexicographic order is the column's sort order as defined by  *)
+(* the Parquet format (ColumnOrder TYPE_ORDER): signed / unsigned integers,     *)
+(* IEEE order for floats with -0 = +0 (NaN has no place in the order),          *)
+(* unsigned byte-wise for BYTE_ARRAY, signed for DECIMAL.                       *)
+Rev(b) == [i \in 1..Len(b) |-> b[Len(b) + 1 - i]]
+FlipSign(b) == [i \in 1..Len(b) |-> IF i = 1 THEN (b[1] + 128) % 256 ELSE b[i]]
+Invert(b) == [i \in 1..Len(b) |-> 255 - b[i]]
+AllZeroFrom(b, k) == \A i \in k..Len(b) : b[i] = 0
+
+\* big-endian float bytes: exponent all ones and mantissa non-zero
+IsNaNBE(b) ==
+  IF Len(b) = 4 THEN b[1] % 128 = 127 /\ b[2] >= 128 /\ ~(b[2] = 128 /\ AllZeroFrom(b, 3))
+  ELSE b[1] % 128 = 127 /\ b[2] >= 240 /\ ~(b[2] = 240 /\ AllZeroFrom(b, 3))
+IsNaN(kind, b) == kind \in {"float", "double"} /\ IsNaNBE(Rev(b))
+
+FloatKey(be) ==
+  IF be[1] = 128 /\ AllZeroFrom(be, 2) THEN FlipSign([i \in 1..Len(be) |-> 0])   \* -0 = +0
+  ELSE IF be[1] >= 128 THEN Invert(be) ELSE FlipSign(be)
+
+Key(kind, b) ==
+  CASE kind \in {"int32", "int64"}   -> FlipSign(Rev(b))
+    [] kind \in {"uint32", "uint64"} -> Rev(b)
+    [] kind \in {"float", "double"}  -> FloatKey(Rev(b))
+    [] kind = "decimal"               -> FlipSign(b)
+    [] kind = "boolean"               -> b
+    [] OTHER                          -> b            \* bytes, string, fixed (unsigned byte-wise)
+
+KLE(kind, a, b) == LexLE(Key(kind, a), Key(kind, b))
+
 \* bounds over a sequence of values (nulls ignored)
 NonNull(vals) == SelectSeq(vals, LAMBDA x : ~IsNullTok(x))
 IsLowerBound(m, vals) == \A i \in 1..Len(vals) : IsNullTok(vals[i]) \/ LexLE(m, vals[i])
